@@ -380,9 +380,11 @@ struct Runner
             for (int x : ints(a[2]))
                 src.emplace_back(x);
             FV& v = *pool.c[idx(0)];
+#ifndef VERIF_NO_SINGLEPASS
             if (++range_calls % 2 == 0)
                 v.insert(v.begin() + a[1].num(), single_pass_begin(src), SinglePass<E>());
             else
+#endif
                 v.insert(v.begin() + a[1].num(), src.begin(), src.end());
             return J("ok");
         }
@@ -392,9 +394,11 @@ struct Runner
             src.reserve(std::max<std::size_t>(8, a[a.size() - 1].size())); // no reallocation: element moves inside the driver must not consume the throw budget
             for (int x : ints(a[1]))
                 src.emplace_back(x);
+#ifndef VERIF_NO_SINGLEPASS
             if (++range_calls % 2 == 0)
                 pool.c[idx(0)]->push_back(single_pass_begin(src), SinglePass<E>());
             else
+#endif
                 pool.c[idx(0)]->push_back(src.begin(), src.end());
             return J("ok");
         }
